@@ -308,7 +308,10 @@ func (generator *ConverterGenerator) mappingForOption(context Context, converter
 			valuePath = ast.Path{
 				{Identifier: mapping.RepeatAs, Type: valueType, Root: true},
 			}
-			argument = generator.argumentForType(context, converter, argName, valuePath, valueType)
+			// the index and the value are two distinct arguments: the name used to unfold
+			// the value must not clash with the variable holding the second one.
+			valueArgName := fmt.Sprintf("arg%d", len(optMapping.Args)+1)
+			argument = generator.argumentForType(context, converter, valueArgName, valuePath, valueType)
 			if generator.nullableTypes.TypeIsNullable(valueType) {
 				argument.Guards = append(argument.Guards, MappingGuard{
 					Path:  valuePath,
